@@ -491,6 +491,34 @@ prc[b] : lin 1 = <c, d> <- split x; drop c; drop d; print fin; close self`},
 prc[a] : F = <p, q> <- recv self; wait p; print never; close q
 prc[f] : F = fwd self a
 prc[b] : lin 1 = drop f; print dropped; close self`},
+	{name: "m42", contraction: true,
+		prints: []string{"once", "fin"},
+		before: [][2]string{{"once", "fin"}},
+		src: `prc[x] : rep 1 = print once; close self
+prc[b] : lin 1 = <u, v> <- split x; <p, q> <- split v; wait p; wait q; wait u; print fin; close self`},
+	{name: "m43", contraction: true,
+		prints: []string{"once", "fin"},
+		before: [][2]string{{"once", "fin"}},
+		src: `prc[x] : rep 1 = print once; close self
+prc[b] : lin 1 = <u, v> <- split x; <p, q> <- split u; <r, s> <- split p; wait r; wait s; wait q; wait v; print fin; close self`},
+	{name: "m44", contraction: true,
+		prints: []string{"made", "fin"},
+		before: [][2]string{{"made", "fin"}},
+		src: `let mk() : rep 1 = print made; close self
+prc[x] : rep 1 = y <- new mk(); fwd self y
+prc[b] : lin 1 = <u, v> <- split x; wait u; wait v; print fin; close self`},
+	{name: "m45", contraction: true,
+		prints: []string{"once", "fin"},
+		before: [][2]string{{"once", "fin"}},
+		src: `prc[x] : rep 1 = print once; close self
+prc[b] : rep 1 = <u, v> <- split x; drop u; fwd self v
+prc[c] : lin 1 = wait b; print fin; close self`},
+	{name: "m46", contraction: true,
+		prints: []string{"once", "fin"},
+		before: [][2]string{{"once", "fin"}},
+		src: `prc[x] : rep 1 = print once; close self
+prc[b] : rep 1 = <u, v> <- split x; drop u; fwd self v
+prc[c] : lin 1 = <p, q> <- split b; wait p; wait q; print fin; close self`},
 }
 
 func orderRespected(prints []string, before [][2]string) bool {
@@ -562,10 +590,13 @@ func ZZRunMenu() {
 		// programs whose exploration takes minutes are left to the thorough tier
 		vn.Assume(runMenu[k].name != "m38")
 	}
+	heavy := map[string]bool{"m11": true, "m15": true, "m16": true, "m23": true, "m24": true, "m25": true, "m28": true, "m31": true, "m38": true, "m43": true, "m46": true}
 	if vn.Param("LIGHT", 0) == 1 {
 		// the programs whose exploration stays small with a monitor attached
-		heavy := map[string]bool{"m11": true, "m15": true, "m16": true, "m23": true, "m24": true, "m25": true, "m28": true, "m31": true, "m38": true}
 		vn.Assume(!heavy[runMenu[k].name])
+	}
+	if vn.Param("HEAVY", 0) == 1 {
+		vn.Assume(heavy[runMenu[k].name])
 	}
 	mode := process.Execution_Version(vn.Pick(vn.Param("MODES", 3)))
 	runMenuProgram(runMenu[k], mode, vn.Param("MONITOR", 0) == 1)
@@ -738,3 +769,95 @@ func ZZRunTwice() {
 }
 
 func init() { vn.Register("zzpub.ZZRunTwice", ZZRunTwice) }
+
+// ZZRunStructural: enumerated structural programs. A client applies a sequence of L structural
+// actions (split, drop, forward through a cut, use) to a replicable channel and the names that
+// result, then uses up what is left. The provider is a positive unit (`print once; close self`,
+// FAMILY 0) or a negative server (`<p, q> <- recv self; wait p; print served; close q`, FAMILY 1).
+// Every such program is typechecked and run in the three modes under every schedule:
+// no error, quiescence, nothing stuck; in the polarised modes the labels are exactly
+// {once, fin} / {served x uses, fin}.
+func ZZRunStructural() {
+	L := vn.Param("L", 2)
+	family := vn.Param("FAMILY", 0)
+	live := []string{"x"}
+	body := ""
+	uses := 0
+	itoa := func(i int) string { return string(rune('0' + i)) }
+	use := func(n string, i int) string {
+		if family == 0 {
+			return "wait " + n + "; "
+		}
+		uses++
+		return "u" + itoa(i) + " <- new mk(); r" + itoa(i) + " : rep 1 <- new (send " + n + "<u" + itoa(i) + ", self>); wait r" + itoa(i) + "; "
+	}
+	ty := "rep 1"
+	if family == 1 {
+		ty = "F"
+	}
+	for i := 0; i < L && len(live) > 0; i++ {
+		act := vn.Pick(4)
+		j := vn.Pick(len(live))
+		n := live[j]
+		rest := append(append([]string{}, live[:j]...), live[j+1:]...)
+		switch act {
+		case 0:
+			a, b := "a"+itoa(i), "b"+itoa(i)
+			body += "<" + a + ", " + b + "> <- split " + n + "; "
+			live = append(rest, a, b)
+		case 1:
+			body += "drop " + n + "; "
+			live = rest
+		case 2:
+			body += use(n, i)
+			live = rest
+		default:
+			f := "f" + itoa(i)
+			body += f + " : " + ty + " <- new fwd self " + n + "; "
+			live = append(rest, f)
+		}
+	}
+	for i, n := range live {
+		body += use(n, 5+i)
+	}
+	src := ""
+	if family == 0 {
+		src = "prc[x] : rep 1 = print once; close self\n"
+	} else {
+		src = "type F = rep 1 -* 1\nlet mk() : rep 1 = close self\nprc[x] : F = <p, q> <- recv self; wait p; print served; close q\n"
+	}
+	src += "prc[b] : lin 1 = " + body + "print fin; close self\n"
+	mode := process.Execution_Version(vn.Pick(3))
+	r := RunProgram(src, mode, true)
+	vn.Observe("program", body)
+	vn.Assert("RUN.structural-program-is-accepted", !r.ParseErr && !r.TypeErr)
+	if r.ParseErr || r.TypeErr {
+		return
+	}
+	want := []string{"fin"}
+	if family == 0 {
+		want = append(want, "once")
+	}
+	for i := 0; i < uses; i++ {
+		want = append(want, "served")
+	}
+	fins := 0
+	for _, p := range r.Prints {
+		if p == "fin" {
+			fins++
+		}
+	}
+	vn.Assert("C01.structural-run-reaches-quiescence-without-error", r.Terminated && fins == 1)
+	if mode == process.NORMAL_ASYNC {
+		vn.Assert("C02.structural-nothing-alive-at-quiescence-async", r.LiveAny == 0)
+	} else if mode == process.NORMAL_SYNC {
+		vn.Assert("C02.structural-only-senders-alive-at-quiescence-sync", r.LiveRecv == 0)
+	}
+	if mode != process.NON_POLARIZED_SYNC {
+		vn.Assert("C03.structural-same-labels-on-every-schedule", sameMultiset(r.Prints, want))
+		vn.Assert("C04.structural-labels-are-those-of-the-semantics", sameMultiset(r.Prints, want))
+	}
+	vn.Assert("C13.structural-no-unordered-conflicting-accesses", r.Races == 0)
+}
+
+func init() { vn.Register("zzpub.ZZRunStructural", ZZRunStructural) }
